@@ -18,6 +18,7 @@ import (
 
 	v2 "mosn.io/mosn/pkg/config/v2"
 	_ "mosn.io/mosn/pkg/filter/network/streamproxy"
+	"mosn.io/mosn/pkg/server"
 	testutil "mosn.io/mosn/test/util"
 	tmosn "mosn.io/mosn/test/util/mosn"
 	"verif/vh"
@@ -114,17 +115,22 @@ func runE2E(p *pki, mock *sdsMock, groups []*group, ups []tcase, out string, par
 	clusters := []v2.Cluster{testutil.NewBasicCluster("echo", []string{plainLn.Addr().String()})}
 	addrs := freeAddrs(len(groups) + len(ups))
 	var listeners []v2.Listener
-	jctxs := make([][]vh.Ev, len(groups))
+	lives := make([]*liveGroup, len(groups))
 	var later []pendingSecret
-	for i, g := range groups {
-		lname, tlsCfgs, jctx, l := g.tlsContexts(p, groupRng(g))
-		jctxs[i] = jctx
-		later = append(later, l...)
+	mkListener := func(i int) v2.Listener {
+		tlsCfgs, _, _ := lives[i].tlsContexts()
 		fc := tcpProxyChain("echo")
 		fc.TLSContexts = tlsCfgs
-		ln := testutil.NewListener(lname, addrs[i], []v2.FilterChain{fc})
-		ln.Inspector = g.insp
-		listeners = append(listeners, ln)
+		ln := testutil.NewListener(lives[i].lname, addrs[i], []v2.FilterChain{fc})
+		ln.Inspector = groups[i].insp
+		return ln
+	}
+	for i, g := range groups {
+		lives[i] = newLive(g, p, mock)
+		_, jctx, l := lives[i].tlsContexts()
+		later = append(later, l...)
+		g.events = append(g.events, vh.Ev{"ev": "mgr", "ctxs": jctx, "insp": g.insp, "g": g.idx, "via": "e2e", "variant": g.variant})
+		listeners = append(listeners, mkListener(i))
 	}
 	// stock TLS echo servers, one per upstream certificate
 	tlsSrv := map[string]string{}
@@ -196,7 +202,28 @@ func runE2E(p *pki, mock *sdsMock, groups []*group, ups []tcase, out string, par
 		go func() {
 			defer wg.Done()
 			for j := range work {
-				if err := w.hellos(j.g, nil, addrs[j.i], jctxs[j.i]); err != nil {
+				// update histories go through the listener update of the running MOSN (handler.go AddOrUpdateListener)
+				var err error
+				for _, u := range j.g.upds {
+					var ev vh.Ev
+					ev, err = lives[j.i].apply(u, func() error {
+						ln := mkListener(j.i)
+						a, e := net.ResolveTCPAddr("tcp", addrs[j.i])
+						if e != nil {
+							return e
+						}
+						ln.Addr = a
+						return server.GetListenerAdapterInstance().AddOrUpdateListener("", &ln)
+					})
+					if err != nil {
+						break
+					}
+					j.g.events = append(j.g.events, ev)
+				}
+				if err == nil {
+					err = w.hellos(j.g, nil, addrs[j.i])
+				}
+				if err != nil {
 					failMu.Lock()
 					if fail == nil {
 						fail = err
@@ -227,7 +254,7 @@ func runE2E(p *pki, mock *sdsMock, groups []*group, ups []tcase, out string, par
 		plainMu.Lock()
 		before := plainSeen[srvAddr]
 		plainMu.Unlock()
-		ev := vh.Ev{"ev": "up", "via": "e2e", "upplain": false, "cfg": vh.Ev{"sn": nonNil(tc.Cfg.Sn), "skip": tc.Cfg.Skip, "ca": tc.Cfg.Ca},
+		ev := vh.Ev{"ev": "up", "via": "e2e", "upplain": false, "upds": []vh.Ev{}, "cfg": vh.Ev{"sn": nonNil(tc.Cfg.Sn), "skip": tc.Cfg.Skip, "ca": tc.Cfg.Ca},
 			"cert": vh.Ev{"names": tc.Cert.Names, "ca": tc.Cert.Ca, "expired": tc.Cert.Expired}, "ok": false}
 		var lastErr error
 		for attempt := 0; attempt < 3; attempt++ {
